@@ -130,6 +130,14 @@ where G: GraphRef + IntoNeighbors + IntoNodeIdentifiers + Visitable + NodeIndexa
             let mut ci = Vec::new();
             for x in g.node_identifiers() { ci.push(g.to_index(x) as i64); ci.push(t.node_component_index(g, x) as i64); }
             v.push(line("cidx", &ci));
+            // a TarjanScc is a reusable state: a second run on the same object must give the same components and the same indices
+            let mut sccs2 = Vec::new();
+            t.run(g, |scc| sccs2.push(scc.to_vec()));
+            let mut ci2 = Vec::new();
+            for x in g.node_identifiers() { ci2.push(g.to_index(x) as i64); ci2.push(t.node_component_index(g, x) as i64); }
+            let same_sccs = sccs2.iter().map(|c| c.iter().map(|x| g.to_index(*x)).collect::<Vec<_>>()).collect::<Vec<_>>()
+                == sccs.iter().map(|c| c.iter().map(|x| g.to_index(*x)).collect::<Vec<_>>()).collect::<Vec<_>>();
+            if !same_sccs || ci2 != ci { v.push("tarjan-reused-state-mismatch".into()); }
             v
         }
         _ => return None,
